@@ -23,7 +23,8 @@ COMBOS = [["simple", "simple"], ["simple", "spawn"], ["dup"], ["dup", "simple"],
           # deep follow-up chains: depth 3 and 4, two or three new vulnerabilities at the last step (the follow-up attempts
           # of one receipt are started together: their id lists must not share storage)
           ["deep3x2", "simple"], ["deep3x3", "simple"], ["deep4x2", "simple"], ["deep4x3", "simple"], ["deep3x2", "spawn"],
-          ["deep2x2", "simple"], ["deep3x2", "deep3x2"]]
+          ["deep2x2", "simple"], ["deep3x2", "deep3x2"],
+          ["shared"], ["shared", "simple"], ["shared", "shared"]]
 
 
 def gadget_universe(kind, gadgets, level=None):
@@ -48,6 +49,21 @@ def gadget_universe(kind, gadgets, level=None):
             d, k = int(g[4]), int(g[6])
             deep = (d, k)
             vs = ["1.0.0", "1.1.0"] + ["%d.0.0" % m for m in range(2, d + k + 2)]
+        if g == "shared":
+            # two vulnerabilities on one resolved node below two direct dependencies, one of which constrains only the
+            # second vulnerability: the attempts for V1 and V2 derive different constraining subgraphs from one shared
+            # dependency subgraph (relax only; under override nothing constrains)
+            a, b, bad = "sa%d" % i, "sb%d" % i, "sbad%d" % i
+            anyv = ">=1.0.0" if eco == "npm" else "[1.0.0,)"
+            uni.append({"name": nm(a), "versions": [{"v": "1.0.0", "deps": [[nm(bad), "^1.0.0" if eco == "npm" else "[1.0.0,2.0.0)"]], "latest": False},
+                                                    {"v": "2.0.0", "deps": [[nm(bad), anyv]], "latest": True}]})
+            uni.append({"name": nm(b), "versions": [{"v": "1.0.0", "deps": [[nm(bad), "<3.0.0" if eco == "npm" else "[1.0.0,3.0.0)"]], "latest": False},
+                                                    {"v": "2.0.0", "deps": [[nm(bad), anyv]], "latest": True}]})
+            uni.append({"name": nm(bad), "versions": [{"v": v, "deps": [], "latest": v == "3.0.0"} for v in ("1.0.0", "2.0.0", "3.0.0")]})
+            man.append({"name": nm(a), "req": "^1.0.0" if eco == "npm" else "1.0.0", "group": ""})
+            man.append({"name": nm(b), "req": "^1.0.0" if eco == "npm" else "1.0.0", "group": ""})
+            V(bad, "0", "2.0.0"); V(bad, "0", "3.0.0")
+            continue
         p = "p%d" % i
         up = {"name": nm(p), "versions": [{"v": v, "deps": [], "latest": v == vs[-1]} for v in vs]}
         if kind == "relax":
